@@ -97,9 +97,10 @@ func judgeSub(v *harness.Verdict, s subView) {
 	}
 
 	// --- termination ------------------------------------------------------------------------------
+	// "every log answers" is about the logs in play: those that may be contacted and those that were.
 	hang := false
 	for i, b := range s.Beh {
-		if b.Kind == behHang && (s.Eligible == nil || s.Eligible[i]) {
+		if b.Kind == behHang && (s.Eligible == nil || s.Eligible[i] || perLog[i] > 0) {
 			hang = true
 		}
 	}
@@ -151,27 +152,76 @@ func judgeSub(v *harness.Verdict, s subView) {
 		v.Failf("policy-refused-satisfiable-list", "%s: good logs %v satisfy %+v but the groups could not be formed: %s", tag, good, s.Need, o.SetupErr)
 		return
 	}
-	// A failure although success was required. Recognise D11 by its trace: the error names a group, and
-	// at the instant of the return a request to a log of that group, scripted to succeed, was in flight.
+	// A failure although success was required. Recognise D11 (a group's race ends while the request that
+	// decides it is owned by another group's goroutine and still in flight) by its trace. It needs
+	// overlapping groups (Chrome), and for every group g the error names:
+	//   - every log of g had already been requested at instant X (only then can all goroutines of g's
+	//     race have finished), where X is
+	//     (a) the instant g's minimum was reached among the SCTs that were returned with the error
+	//         (g's race ended before a request owned by another group delivered), or
+	//     (b) the instant of the return, with a request to a log of g, scripted to succeed, in flight.
 	var named []string
-	for _, g := range failedGroups(o.Err) {
+	groups := failedGroups(o.Err)
+	startOf := map[int]time.Duration{}
+	endSCT := map[int]time.Duration{}
+	for _, c := range s.Calls {
+		if _, ok := startOf[c.Log]; !ok || c.Start < startOf[c.Log] {
+			startOf[c.Log] = c.Start
+		}
+		if c.Out == "sct" {
+			endSCT[c.Log] = c.End
+		}
+	}
+	allRequestedBy := func(g string, x time.Duration) bool {
+		for i := range s.Beh {
+			if !groupOf(g, s.List, i) || !s.Certain[i] {
+				continue
+			}
+			if st, ok := startOf[i]; !ok || st > x {
+				return false
+			}
+		}
+		return true
+	}
+	for _, g := range groups {
+		if s.Need.Google == 0 {
+			break // a single group: nobody else can own its requests
+		}
+		var ends []time.Duration
+		for _, i := range got {
+			if groupOf(g, s.List, i) {
+				ends = append(ends, endSCT[i])
+			}
+		}
+		sort.Slice(ends, func(i, j int) bool { return ends[i] < ends[j] })
+		min := map[string]int{"Google-operated": 1, "Non-Google-operated": 1, "All-logs": s.Need.Total}[g]
+		if min > 0 && len(ends) >= min {
+			if x := ends[min-1]; allRequestedBy(g, x) {
+				named = append(named, fmt.Sprintf("%s(reached %d of %d among the returned SCTs at %v, all its logs requested before)", g, len(ends), min, x))
+			}
+			continue
+		}
+		if !allRequestedBy(g, o.Return) {
+			continue
+		}
 		for _, c := range s.Calls {
 			if c.Log < 0 || c.Log >= len(s.Beh) || !groupOf(g, s.List, c.Log) || s.Beh[c.Log].Kind != behSCT {
 				continue
 			}
 			if c.Start <= o.Return && (c.Out == "open" || c.End >= o.Return) {
-				named = append(named, fmt.Sprintf("%s(log %d in flight %v..%s)", g, c.Log, c.Start, endOf(c)))
+				named = append(named, fmt.Sprintf("%s(log %d in flight %v..%s, all its logs requested)", g, c.Log, c.Start, endOf(c)))
 				break
 			}
 		}
 	}
-	if len(named) > 0 {
-		v.Failf("premature-group-failure", "%s: returned %q at %v with the caller's context alive; good logs %v satisfy %+v; %s: %s",
-			tag, o.Err, o.Return, good, s.Need, strings.Join(named, "; "), fmtCalls(s.Calls))
+	if len(groups) > 0 && len(named) == len(groups) && !o.CtxEnded {
+		v.Class("d11:premature-group-failure")
+		v.Failf("premature-group-failure", "%s: returned %q at %v with the caller's context alive; good logs %v satisfy %+v; returned SCTs from %v; %s; google flags %v: %s",
+			tag, o.Err, o.Return, good, s.Need, got, strings.Join(named, "; "), googleFlags(s.List), fmtCalls(s.Calls))
 		return
 	}
-	v.Failf("liveness-failure", "%s: returned %q at %v although good logs %v satisfy %+v and the context outlives the schedule (bound %d ms): %s",
-		tag, o.Err, o.Return, good, s.Need, bound, fmtCalls(s.Calls))
+	v.Failf("liveness-failure", "%s: returned %q at %v (caller's context ended: %v) although good logs %v satisfy %+v and the context outlives the schedule (bound %d ms); returned SCTs from %v; google flags %v: %s",
+		tag, o.Err, o.Return, o.CtxEnded, good, s.Need, bound, got, googleFlags(s.List), fmtCalls(s.Calls))
 }
 
 func endOf(c Call) string {
